@@ -262,13 +262,17 @@ def shape_engine(prop, tier, seed, keep=False):
         for sj, fl, ex_, binp, out in vlib.pmap(build_job, [(sj, 'clang-asan', '') for sj in brng[:3 if tier == 'quick' else 12]]):
             if binp is None: V.harness_errors.append('build failed: %s: %s' % (sj['name'], out[:300])); continue
             jobs.append((sj, fl, binp, 'copies', seed * 31 + 7, T['steps'], prop, keep))
-    results = []; ntacc = set(); cfgacc = set()
+    results = []; ntacc = set(); cfgacc = set(); sjshare = {}
     with cf.ProcessPoolExecutor(max_workers=vlib.JOBS) as ex:
         for r in ex.map(run_job, jobs, chunksize=1):
             # merged as they arrive: thousands of runs with tens of thousands of hashes each do not fit in memory as lists
             for h in r.get('nt', {}).get(prop, []): ntacc.add(h)
             for h in r.get('cfg_hashes', []): cfgacc.add(h)
             r['nt'] = {}; r['cfg_hashes'] = []
+            # every result carries its own unpickled copy of the shape: share one object per shape instead
+            key_ = (r.get('shape'), json.dumps(r.get('cfg'), sort_keys=True))
+            r['sj'] = sjshare.setdefault(key_, r.get('sj')); r['desc'] = r['sj']['desc'] if r.get('sj') else r.get('desc'); r['cfg'] = r['sj']['cfg'] if r.get('sj') else r.get('cfg')
+            if 'summary' in r and len(results) > 64: r['summary']['samples'] = r['summary']['samples'][-1:]; r['summary'].pop('matrix', None)
             results.append(r)
     extra = dict(build_s=round(tb, 1), join_output_differs_from_single_header=joindiff)
     if prop == 'C11':
